@@ -696,7 +696,18 @@ def d2_definitions(ctx, idx, env):
         raises = [p for p in paths if p.leaf.kind == 'raise']
         if len(rets) != 1:
             raise AnalysisError('array_abs: expected one return path')
-        res = classify_def(idx, mod, ['np.linalg.norm(_O)'], rets[0].leaf.expr, b)
+        res = classify_def(idx, mod, ['np.linalg.norm(_O)', 'np.sqrt(np.vdot(_O, _O)).real', 'np.sqrt(np.real(np.vdot(_O, _O)))',
+                                      'np.sqrt(np.vdot(_O, _O).real)', 'np.sqrt(np.sum(np.abs(_O) ** 2))',
+                                      'np.sqrt(np.sum(np.abs(_O) * np.abs(_O)))'], rets[0].leaf.expr, b)
+        if res != nf.MATCH:
+            plain = classify_def(idx, mod, ['np.sqrt(np.dot(_O, _O))', 'np.sqrt(_O @ _O)', 'np.sqrt(np.inner(_O, _O))',
+                                            'np.sqrt(np.sum(_O * _O))', 'np.sqrt(np.sum(_O ** 2))', 'np.sqrt(sum(_O * _O))',
+                                            'np.sqrt(sum(_O ** 2))', 'np.dot(_O, _O) ** 0.5', '(_O @ _O) ** 0.5',
+                                            'np.sum(_O ** 2) ** 0.5', 'np.lib.scimath.sqrt(np.dot(_O, _O))'], rets[0].leaf.expr, b)
+            if plain == nf.MATCH:
+                res = ('DIFF', 'the squares are summed without complex conjugation (`%s`): for complex arguments this is not the '
+                               'modulus -- abs(3+4*i) gives 3+4j instead of 5 and abs([1, i]) gives 0 instead of sqrt(2)'
+                       % short(rets[0].leaf.expr))
         verdict('mathfuncs.array_abs [value]', res, lib.loc(fi, rets[0].leaf.stmt), 'numpy.linalg.norm(obj)', short(rets[0].leaf.expr),
                 'abs(...) of a vector is no longer its Euclidean norm')
         if not raises:
@@ -841,6 +852,38 @@ def guards_of(node, fn_node):
     return out
 
 
+def _truthy_text(e):
+    """A string expression that cannot be empty: a non-empty literal, such a string formatted / concatenated."""
+    if isinstance(e, ast.Constant):
+        return isinstance(e.value, str) and bool(e.value)
+    if isinstance(e, ast.JoinedStr):
+        return any(isinstance(v, ast.Constant) and v.value for v in e.values)
+    if isinstance(e, ast.Call) and isinstance(e.func, ast.Attribute) and e.func.attr == 'format':
+        return _truthy_text(e.func.value)
+    if isinstance(e, ast.BinOp) and isinstance(e.op, ast.Add):
+        return _truthy_text(e.left) or _truthy_text(e.right)
+    if isinstance(e, ast.BinOp) and isinstance(e.op, ast.Mod):
+        return _truthy_text(e.left)
+    return False
+
+
+def _feasible(p):
+    for g in p.guards:
+        if isinstance(g, ast.Constant) and not g.value:
+            return False
+        if isinstance(g, ast.UnaryOp) and isinstance(g.op, ast.Not):
+            o = g.operand
+            if (isinstance(o, ast.Constant) and o.value) or _truthy_text(o):
+                return False
+    conj = [c for g in p.guards for c in nf.conjuncts(g)]
+    for i, g1 in enumerate(conj):
+        n1 = nf.negate(g1)
+        for g2 in conj[i + 1:]:
+            if nf.equal(n1, g2):
+                return False        # a condition and its negation on the same path
+    return True
+
+
 def _private_callees(idx, fi):
     out = []
     for c in walk_own(fi.node):
@@ -910,81 +953,68 @@ def d4_decorator(ctx, idx, env):
                 r.violation('make_decorator._func: count check', 'no ArgumentError is raised for a wrong number of arguments', fn.loc,
                             expected='raise ArgumentError(msg)')
             return
-        # count-refusal sites: the raise itself (condition = its guards) or, when the raise is `if <msg>: raise`, the places
-        # that set the message (condition = guards of the assignment)
+        # decision paths of _func with locals substituted: the paths that raise ArgumentError carry the count conditions,
+        # the paths that return func(*args) must carry their negations (this sees through a message variable, a flag
+        # variable, temporaries such as num_args and helpers that were inlined)
         b = {'_ARGS': ast.Name(id=args, ctx=ast.Load())}
-        sites = []          # (anchor stmt, innermost If, mode, message-if or None)
-        for rs in ae:
-            inner = None
-            for a_ in lib.ancestors(rs):
-                if isinstance(a_, ast.If):
-                    inner = a_
-                    break
-                if a_ is node:
-                    break
-            if inner is not None and isinstance(inner.test, ast.Name):
-                msg = inner.test.id
-                for n in walk_own(node):
-                    if isinstance(n, ast.If) and n is not inner:
-                        for st in n.body:
-                            if isinstance(st, ast.Assign) and any(isinstance(t, ast.Name) and t.id == msg for t in st.targets):
-                                nonempty = any(isinstance(c, ast.Constant) and isinstance(c.value, str) and c.value.strip()
-                                               for c in ast.walk(st.value)) or isinstance(st.value, ast.Call)
-                                if nonempty:
-                                    sites.append((st, n, 'message', inner))
-            elif inner is not None:
-                sites.append((rs, inner, 'direct', None))
-            else:
-                r.violation('make_decorator._func: raise ArgumentError', 'ArgumentError is raised unconditionally: every call of a '
-                            'decorated function fails', lib.loc(fn, rs))
-                return
-        r.ok('make_decorator._func: raise ArgumentError', '%d count-refusal site(s)' % len(sites), lib.loc(fn, ae[0]))
-        wanted = {'min_length': ('len(_ARGS) < min_length', 'min_length is not None', 'fewer than min_length arguments'),
-                  'exact': ('len(shapes) != len(_ARGS)', 'min_length is None', 'a number of arguments different from the number of shapes')}
+        all_paths = [p for p in nf.decision_paths(node.body) if _feasible(p)]
+        ae_paths = [p for p in all_paths if p.leaf.kind == 'raise' and nf.exc_class_name(p.leaf.expr) == 'ArgumentError']
+        call_paths = [p for p in all_paths if p.leaf.kind == 'ret' and isinstance(p.leaf.expr, ast.Call)
+                      and isinstance(p.leaf.expr.func, ast.Name) and p.leaf.expr.func.id == wrapped]
+        if not ae_paths:
+            _absent(r, idx, fn, 'make_decorator._func: count check', 'no feasible path raises ArgumentError', fn.loc)
+            return
+        r.ok('make_decorator._func: raise ArgumentError', '%d refusing path(s)' % len(ae_paths), lib.loc(fn, ae[0]))
+        wanted = {'min_length': ('len(_ARGS) < min_length', 'min_length is not None', 'min_length <= len(_ARGS)',
+                                 'fewer than min_length arguments'),
+                  'exact': ('len(shapes) != len(_ARGS)', 'min_length is None', 'len(shapes) == len(_ARGS)',
+                            'a number of arguments different from the number of shapes')}
         found = {}
-        matched_sites = set()
-        for key, (p, sel, what) in wanted.items():
-            for i, (st, n, mode, mif) in enumerate(sites):
-                gs = [lib.inline_locals(g, node, depth=2) for g in guards_of(st, node)]
+        used_paths = set()
+        for key, (pt, sel, negp, what) in wanted.items():
+            other_sel = wanted['exact' if key == 'min_length' else 'min_length'][1]
+            for i, p in enumerate(ae_paths):
+                gs = [c for g in p.guards for c in nf.conjuncts(g)]
                 in_branch = any(nf.classify(sel, g) == nf.MATCH for g in gs)
-                other_branch = any(nf.classify(wanted['exact' if key == 'min_length' else 'min_length'][1], g) == nf.MATCH for g in gs)
+                other_branch = any(nf.classify(other_sel, g) == nf.MATCH for g in gs)
                 for g in gs:
-                    res = nf.classify(p, g, dict(b))
+                    res = nf.classify(pt, g, dict(b))
                     if res == nf.MATCH:
                         if in_branch:
-                            found[key] = ('ok', n, i)
+                            found[key] = ('ok', p, i)
                         elif other_branch:
-                            found.setdefault(key, ('branch', n, i))
+                            found.setdefault(key, ('branch', p, i))
                         else:
-                            found.setdefault(key, ('nobranch', n, i))
+                            found.setdefault(key, ('nobranch', p, i))
                     elif isinstance(res, tuple) and in_branch and key not in found:
-                        found[key] = (res[1], n, i)
+                        found[key] = (res[1], p, i)
                 if key in found and found[key][0] == 'ok':
                     break
-        for key, (p, sel, what) in wanted.items():
+            if key in found:
+                used_paths.add(found[key][2])
+        for key, (pt, sel, negp, what) in wanted.items():
             construct = 'make_decorator._func: count condition [%s]' % key
             hit = found.get(key)
+            where = lib.loc(fn, hit[1].leaf.stmt) if hit else fn.loc
             if hit is None:
-                unmatched = [x for i, x in enumerate(sites) if i not in {v[2] for v in found.values()}]
+                unmatched = [i for i in range(len(ae_paths)) if i not in used_paths]
                 if unmatched or unrev:
-                    r.undecided(construct, 'the check that refuses %s was not recognised (%d unmatched refusal site(s), unreviewed '
-                                'helpers %s)' % (what, len(unmatched), [h.name for h in unrev]), fn.loc)
+                    r.undecided(construct, 'the check that refuses %s was not recognised (%d refusing path(s) with other conditions, '
+                                'unreviewed helpers %s)' % (what, len(unmatched), [h.name for h in unrev]), fn.loc)
                 else:
-                    r.violation(construct, 'the check that refuses %s is gone (every ArgumentError site is accounted for by the other '
+                    r.violation(construct, 'the check that refuses %s is gone (every refusing path is accounted for by the other '
                                 'condition): the function is called with a wrong number of arguments' % what, fn.loc,
-                                expected=p.replace('_ARGS', args))
+                                expected=pt.replace('_ARGS', args))
             elif hit[0] == 'ok':
-                r.ok(construct, '%s under `%s`' % (p.replace('_ARGS', args), sel), lib.loc(fn, hit[1]))
+                r.ok(construct, '%s under `%s`' % (pt.replace('_ARGS', args), sel), where)
             elif hit[0] == 'branch':
-                r.violation(construct, 'the check `%s` sits in the branch selected by the opposite of `%s`' % (p.replace('_ARGS', args), sel),
-                            lib.loc(fn, hit[1]), expected='under `%s`' % sel)
+                r.violation(construct, 'the check `%s` sits in the branch selected by the opposite of `%s`' % (pt.replace('_ARGS', args), sel),
+                            where, expected='under `%s`' % sel)
             elif hit[0] == 'nobranch':
-                r.undecided(construct, 'selector of the branch not recognised', lib.loc(fn, hit[1]))
+                r.undecided(construct, 'selector of the branch not recognised', where)
             else:
-                r.violation(construct, 'the count condition changed: %s' % hit[0], lib.loc(fn, hit[1]),
-                            expected=p.replace('_ARGS', args), found=short(hit[1].test))
+                r.violation(construct, 'the count condition changed: %s' % hit[0], where, expected=pt.replace('_ARGS', args))
         r.ok('make_decorator._func: branch selection', 'checked per count condition', fn.loc, nontrivial=False)
-        count_sites = sites
         # --- the wrapped call
         calls = [c for c in walk_own(node) if isinstance(c, ast.Call) and isinstance(c.func, ast.Name) and c.func.id == wrapped]
         if len(calls) != 1:
@@ -996,20 +1026,26 @@ def d4_decorator(ctx, idx, env):
                 'the wrapped function is not called with exactly the received arguments: `%s`' % short(call), lib.loc(fn, call),
                 expected='%s(*%s)' % (wrapped, args), found=short(call))
         call_nodes = lib.cfg_nodes_for(cfg, call)
-        test_nodes = []
-        leak = False
-        for st, n, mode, mif in count_sites:
-            gate_if = mif if mode == 'message' else n
-            tn = [x for x in cfg.nodes_of(gate_if) if x.kind == 'test'] or cfg.nodes_of(gate_if)
-            test_nodes.extend(tn)
-            if mode == 'direct':
-                for t_ in tn:
-                    reach_true = cfg.reach([t_], blocked_edges=[(t_, 'false')])
-                    if any(c_ in reach_true for c_ in call_nodes):
-                        leak = True
-        r.check(cfg.dominates(test_nodes, call_nodes) and not leak, 'make_decorator._func: count check precedes the call',
-                'every path to the call passes the argument-count refusal',
-                'a path reaches %s(*%s) without passing the argument-count check' % (wrapped, args), lib.loc(fn, call))
+        leak = None
+        unknown = None
+        for p in call_paths:
+            gs = [c for g in p.guards for c in nf.conjuncts(g)]
+            keys = [k for k, (pt, sel, negp, what) in wanted.items() if any(nf.classify(sel, g) == nf.MATCH for g in gs)]
+            if len(keys) != 1:
+                unknown = p
+                continue
+            negp = wanted[keys[0]][2]
+            if not any(nf.classify(negp, g, dict(b)) == nf.MATCH for g in gs) and found.get(keys[0], ('',))[0] == 'ok':
+                leak = (p, keys[0])
+        if leak is not None:
+            _absent(r, idx, fn, 'make_decorator._func: count check precedes the call',
+                    'a path reaches %s(*%s) without passing the argument-count check for the `%s` branch (guards: %s)'
+                    % (wrapped, args, wanted[leak[1]][1], ' and '.join(unparse(g) for g in leak[0].guards)[:200]), lib.loc(fn, call))
+        elif unknown is not None or not call_paths:
+            r.undecided('make_decorator._func: count check precedes the call', 'paths to the wrapped call not recognised', lib.loc(fn, call))
+        else:
+            r.ok('make_decorator._func: count check precedes the call', 'every path to the call carries the negated count condition',
+                 lib.loc(fn, call))
         gate = None
         for a in lib.ancestors(call):
             if isinstance(a, ast.If):
@@ -1241,28 +1277,44 @@ def d4_evalfn(ctx, idx, env):
         else:
             order = [lib.handler_class_names(h) for h in tr.handlers]
             flat = [n for names in order for n in names]
+            # cases: (exception class handled, decision path, handler); a merged handler that dispatches with
+            # isinstance(error, C) contributes one case per class C and a default case for its own classes
+            cases = []
+            opaque = []
+            for h in tr.handlers:
+                try:
+                    hpaths = nf.decision_paths(h.body)
+                except AnalysisError:
+                    opaque.append(h)
+                    continue
+                for p in hpaths:
+                    pos = []
+                    for g in p.guards:
+                        if h.name and isinstance(g, ast.Call) and nf.callee_name(g) == 'isinstance' and len(g.args) == 2 \
+                                and isinstance(g.args[0], ast.Name) and g.args[0].id == h.name:
+                            cl = g.args[1]
+                            pos.extend([unparse(e).split('.')[-1] for e in cl.elts] if isinstance(cl, ast.Tuple)
+                                       else [unparse(cl).split('.')[-1]])
+                    for src_ in (pos or lib.handler_class_names(h)):
+                        cases.append((src_, p, h, bool(pos)))
             for src, dst in want:
                 construct = 'eval_function: except %s' % src
-                hs = [h for h in tr.handlers if src in lib.handler_class_names(h)]
-                dispatching = [h for h in tr.handlers if any(isinstance(c, ast.Call) and nf.callee_name(c) in ('isinstance', 'type')
-                                                             for s_ in h.body for c in ast.walk(s_))]
-                if not hs and dispatching:
-                    r.undecided(construct, 'no separate handler; a merged handler dispatches on the exception type', lib.loc(fi, tr))
-                    continue
-                if not hs:
-                    _absent(r, idx, fi, construct, 'handler missing: %s' % ('student-facing errors raised inside a function (domain errors) '
+                mine = [c for c in cases if c[0] == src]
+                if not mine:
+                    if opaque:
+                        r.undecided(construct, 'handler bodies not analysable', lib.loc(fi, tr))
+                    else:
+                        _absent(r, idx, fi, construct, 'handler missing: %s' % ('student-facing errors raised inside a function (domain errors) '
                                 'are recast as a generic FunctionEvalError' if dst is None else
                                 '%s raised while evaluating a function is no longer turned into %s' % (src, dst)), lib.loc(fi, tr),
                                 expected='except %s' % src)
                     continue
-                h = hs[0]
-                pos = flat.index(src)
-                if src != 'Exception' and 'Exception' in flat and flat.index('Exception') < pos:
+                h = mine[0][2]
+                if not mine[0][3] and src != 'Exception' and 'Exception' in flat and flat.index('Exception') < flat.index(src):
                     r.violation(construct, 'unreachable: the catch-all handler precedes it', lib.loc(fi, h))
                     continue
-                paths = nf.decision_paths(h.body)
                 good = True
-                for p in paths:
+                for (_, p, h, dispatched) in mine:
                     if p.leaf.kind != 'raise':
                         good = False
                         r.violation(construct, 'the handler %s instead of raising: a value (None) is used as the result of the '
@@ -1273,15 +1325,20 @@ def d4_evalfn(ctx, idx, env):
                             r.violation(construct, 'student-facing errors are not re-raised unchanged', lib.loc(fi, p.leaf.stmt))
                     else:
                         cls = nf.exc_class_name(p.leaf.expr)
-                        if cls != dst:
-                            good = False
-                            if cls is None or not lib.exc_is_subclass(idx, mod, cls, 'StudentFacingError'):
-                                r.violation(construct, '%s is %s instead of being recast as %s: not a student-facing error'
-                                            % (src, 're-raised unchanged' if cls is None else 'recast as %s' % cls, dst),
-                                            lib.loc(fi, p.leaf.stmt), expected=dst, found=str(cls))
-                            else:
-                                r.violation(construct, '%s is recast as %s instead of %s' % (src, cls, dst), lib.loc(fi, p.leaf.stmt),
-                                            expected=dst, found=cls)
+                        is_class = cls is not None and isinstance(p.leaf.expr, (ast.Call, ast.Name)) and \
+                            (cls in lib.BUILTIN_EXC_PARENTS or idx.resolve_name(mod, cls)[0] == 'class')
+                        if cls == dst:
+                            continue
+                        good = False
+                        if cls is not None and not is_class:
+                            r.undecided(construct, 'raised object not recognised: %s' % short(p.leaf.expr), lib.loc(fi, p.leaf.stmt))
+                        elif cls is None or not lib.exc_is_subclass(idx, mod, cls, 'StudentFacingError'):
+                            r.violation(construct, '%s is %s instead of being recast as %s: not a student-facing error'
+                                        % (src, 're-raised unchanged' if cls is None else 'recast as %s' % cls, dst),
+                                        lib.loc(fi, p.leaf.stmt), expected=dst, found=str(cls))
+                        else:
+                            r.violation(construct, '%s is recast as %s instead of %s' % (src, cls, dst), lib.loc(fi, p.leaf.stmt),
+                                        expected=dst, found=cls)
                 if good:
                     r.ok(construct, 're-raised unchanged' if dst is None else 'raises %s' % dst, lib.loc(fi, h))
         # validate_function_call
@@ -1351,7 +1408,7 @@ def d4_evalfn(ctx, idx, env):
 # ----------------------------------------------------------------------------- D5
 def d5_numpy_state(ctx, idx):
     r = ctx.rule('D5.NPSTATE', 'numpy floating-point errors (invalid value, overflow, divide by zero) are raised as Python '
-                               'exceptions, so that a function outside its domain cannot return nan/inf silently', floor=7)
+                               'exceptions, so that a function outside its domain cannot return nan/inf silently', floor=8)
     with r:
         mexpr = idx.module('mitxgraders.helpers.calc.expressions')
         top = {}
@@ -1372,13 +1429,26 @@ def d5_numpy_state(ctx, idx):
             r.violation('expressions: np.seterr', 'expected exactly one unconditional module-level np.seterr call, found %d: numpy '
                         'only warns on invalid/overflow/divide and returns nan/inf' % len(se), mexpr.relpath)
         else:
-            kws = {k.arg: nf.const_value(k.value) for k in se[0].keywords}
+            kws = {k.arg: nf.const_value(k.value, tables.NOLIT) for k in se[0].keywords}
+            names = ['all', 'divide', 'over', 'under', 'invalid']
+            for nm, a in zip(names, se[0].args):
+                kws[nm] = nf.const_value(a, tables.NOLIT)
             alls = kws.get('all')
             for k in ('divide', 'over', 'invalid'):
                 got = kws.get(k, alls)
                 r.check(got in ('call', 'raise'), 'np.seterr(%s=...)' % k, repr(got),
                         "np.seterr no longer makes '%s' errors raise (found %r): such operations yield nan/inf silently" % (k, got),
                         lib.mloc(mexpr, se[0]), expected="'call'", found=repr(got))
+            under = kws.get('under', alls)
+            if under in (None, 'ignore'):
+                r.ok('np.seterr(under=...)', 'underflow left at its default (ignored)', lib.mloc(mexpr, se[0]))
+            elif isinstance(under, str):
+                r.violation('np.seterr(under=...)', "floating-point underflow is set to %r (through `%s`): the handler has no branch for "
+                            "underflow, so a result that merely underflows to 0 -- exp(-1000) -- raises a domain error instead of "
+                            "returning the value of the function" % (under, short(se[0])), lib.mloc(mexpr, se[0]),
+                            expected="np.seterr(divide='call', over='call', invalid='call')", found=short(se[0]))
+            else:
+                r.undecided('np.seterr(under=...)', 'underflow setting is not a constant: %s' % short(se[0]), lib.mloc(mexpr, se[0]))
         sc = top.get('numpy.seterrcall', [])
         handler = None
         if len(sc) != 1:
@@ -1409,7 +1479,7 @@ def d5_numpy_state(ctx, idx):
                         (isinstance(body[0].exc, ast.Call) and isinstance(body[0].exc.func, ast.Name) and body[0].exc.func.id == cls))
                     if nf.classify('%s in %s' % (frag, err_param), test) == nf.MATCH and raises_cls and not lp.body[0].orelse:
                         try:
-                            tab = tables.evaluator(idx).eval(lp.iter, tables.Scope(handler.module))
+                            tab = tables.evaluator(idx).eval(lib.inline_locals(lp.iter, handler.node), tables.Scope(handler.module))
                         except tables.Unsupported:
                             tab = None
                         if tab is not None and tab.kind == 'dict':
@@ -1527,6 +1597,10 @@ MUTANTS = [
     Mutant('generic-handler-reraises', EXPR, "            raise FunctionEvalError(msg)\n\n    @staticmethod\n    def validate_function_call", "            raise\n\n    @staticmethod\n    def validate_function_call", 'D4'),
     Mutant('number-of-args-counts-defaults', GNA, "    return sum([params[key].default == empty for key in params])", "    return sum([params[key].default != empty for key in params])", 'D4'),
     Mutant('nin-ignored', GNA, "    if hasattr(callable_obj, \"nin\"):\n        # Matches RandomFunction or numpy ufunc\n        # Sadly, even Py3's inspect.signature can't handle numpy ufunc...\n        return callable_obj.nin\n", "", 'D4'),
+    Mutant('seeded-C15c-abs-without-conjugation', MF, "        raise FunctionEvalError(msg)\n    return np.linalg.norm(obj)", "        raise FunctionEvalError(msg)\n    return np.sqrt(np.dot(obj, obj))", 'D2'),
+    Mutant('abs-sum-of-squares', MF, "        raise FunctionEvalError(msg)\n    return np.linalg.norm(obj)", "        raise FunctionEvalError(msg)\n    return np.sqrt(np.sum(obj ** 2))", 'D2'),
+    Mutant('seeded-C15d-seterr-all', EXPR, "np.seterr(divide='call', over='call', invalid='call')", "np.seterr(all='call')", 'D5'),
+    Mutant('seterr-under-raise', EXPR, "np.seterr(divide='call', over='call', invalid='call')", "np.seterr(divide='call', over='call', under='raise', invalid='call')", 'D5'),
     Mutant('invalid-ignored', EXPR, "np.seterr(divide='call', over='call', invalid='call')", "np.seterr(divide='call', over='call', invalid='ignore')", 'D5'),
     Mutant('seterr-dropped', EXPR, "np.seterr(divide='call', over='call', invalid='call')\n", "", 'D5'),
     Mutant('np-handler-swallows', EXPR, "    elif 'value' in err:\n        raise ValueError", "    elif 'value' in err:\n        return", 'D5'),
@@ -1561,5 +1635,7 @@ BENIGN = [
     Benign('count-check-raises-directly', SD, "                    if len(args) < min_length:\n                        msg = (\"Wrong number of arguments passed to {func_name}(...): \"\n                               \"Expected at least {expected} inputs, but received {received}.\"\n                               .format(func_name=func_name,\n                                       expected=min_length,\n                                       received=len(args)))",
            "                    if len(args) < min_length:\n                        raise ArgumentError(\"Wrong number of arguments passed to {func_name}(...): \"\n                               \"Expected at least {expected} inputs, but received {received}.\"\n                               .format(func_name=func_name,\n                                       expected=min_length,\n                                       received=len(args)))"),
     Benign('shape-gate-not-any', SD, "                if all([error is None for error in errors]):", "                if not any(error is not None for error in errors):"),
+    Benign('abs-through-vdot', MF, "        raise FunctionEvalError(msg)\n    return np.linalg.norm(obj)", "        raise FunctionEvalError(msg)\n    return np.sqrt(np.vdot(obj, obj)).real"),
+    Benign('seterr-under-ignore-explicit', EXPR, "np.seterr(divide='call', over='call', invalid='call')", "np.seterr(divide='call', over='call', under='ignore', invalid='call')"),
     Benign('kronecker-else', MF, "    if x == y:\n        return 1\n    return 0", "    if x != y:\n        return 0\n    else:\n        return 1"),
 ]
